@@ -28,7 +28,7 @@ ASSUMPTIONS = STRUCT_ASSUMPTIONS
 
 
 def budget(tier):
-    return dict(examples=3000 if tier == 'quick' else 150000)
+    return dict(examples=3000 if tier == 'quick' else 60000)
 
 
 # last element: how the collection arguments are passed (all are documented Iterables):
